@@ -229,3 +229,34 @@ Proof.
   intros H. inv_bind H. inversion H; subst; cbn. intros ->.
   destruct (d_algo (c_desc c)); try discriminate. inv_bind E. inversion E; subst. exact E3.
 Qed.
+
+(* ------------------------------------------------------------------ C07, XY part: coordinates distinct *)
+From FV Require Import RouteMap Hw Check CheckProofs.
+
+Definition id_stage (d : desc) (g : graph) (ni : node) : res idv :=
+  match find_ep d (n_desc ni) with
+  | Some e =>
+      let ep_node := match n_arr ni with Some idx => full_name (ep_name e) idx | None => ep_name e end in
+      do uid <- uid_of g ep_node; ni_id g d ni uid
+  | None => Err "network interface without descriptor"
+  end.
+
+Lemma compile_ni_id d g ni x : compile_ni d g ni = Ok x -> id_stage d g ni = Ok (cn_id x).
+Proof.
+  unfold compile_ni, id_stage. destruct (find_ep d (n_desc ni)) as [e|]; [|discriminate].
+  intros H. inv_bind H. inversion H; subst x; clear H. cbn [cn_id]. cbv zeta. rewrite E. cbn [bind]. exact E0.
+Qed.
+
+Theorem xy_ids_distinct d g c : compile d g = Ok c -> d_algo d = XY -> NoDup (map cn_id (c_nis c)).
+Proof.
+  intros Hc Hxy. unfold compile in Hc. inv_bind Hc. inversion Hc; subst c; clear Hc. cbn [c_nis].
+  match goal with E : mapM _ (nodes_of_type g NNi) = Ok ?l, E' : match d_algo d with XY => _ | _ => _ end = Ok _ |- _ =>
+    match type of l with list idv => rename E into Hi; rename l into ids; rename E' into Hnd end end.
+  match goal with E : mapM (compile_ni d g) _ = Ok ?l |- _ => rename E into Hn; rename l into nis end.
+  rewrite Hxy in Hnd. destruct (nodupb idv_eqb ids) eqn:N; [|discriminate].
+  assert (Heq : map cn_id nis = ids).
+  { apply mapM_Forall2 in Hn. apply mapM_Forall2 in Hi. clear N Hnd. revert ids Hi. clear -Hn.
+    induction Hn as [|ni x l l' Hx _ IH]; intros ids Hi; inversion Hi; subst; cbn; [reflexivity|].
+    apply compile_ni_id in Hx. fold (id_stage d g ni) in *. rewrite Hx in H1. inversion H1; subst. f_equal. apply (IH _ H3). }
+  rewrite Heq. apply nodupb_idv. exact N.
+Qed.
